@@ -108,3 +108,9 @@ Proof.
   intros H. unfold pad_left. rewrite zlen_app, repeat_byte_len.
   pose proof (zlen_nonneg s). lia.
 Qed.
+
+Lemma skipn_skipn {A} (a b : nat) (l : list A) : skipn a (skipn b l) = skipn (b + a) l.
+Proof.
+  revert l. induction b as [|b IH]; intros l; [reflexivity|].
+  destruct l as [|x t]; [now rewrite !skipn_nil|]. cbn [skipn Nat.add]. apply IH.
+Qed.
